@@ -34,6 +34,8 @@ func (s schedSpec) String() string {
 		return fmt.Sprintf("periodic(%ds+%d)", s.Period, s.Phase)
 	case "every":
 		return fmt.Sprintf("@every %ds", s.Period)
+	case "localmin":
+		return fmt.Sprintf("localminute%%%d", s.Period)
 	case "spec":
 		return fmt.Sprintf("*/%d * * * * *", s.Period)
 	default:
@@ -57,6 +59,26 @@ func (p periodic) Next(t time.Time) time.Time {
 	return n
 }
 
+// localMin is a wall-clock schedule: it fires at the start of every minute whose minute-of-the-hour, read in the
+// location of the time it is GIVEN, is a multiple of m. Like a cron spec it therefore depends on the scheduler
+// handing it times in the Cron's location (WithLocation): in a zone with a 30- or 45-minute offset the same
+// instant has a different minute-of-the-hour than in UTC.
+type localMin struct{ m int }
+
+func (l localMin) Next(t time.Time) time.Time {
+	n := t.Truncate(time.Minute).Add(time.Minute)
+	for i := 0; i < 24*60; i++ {
+		if n.Minute()%l.m == 0 {
+			return n
+		}
+		n = n.Add(time.Minute)
+	}
+	return time.Time{}
+}
+
+// cronLoc is the location the Cron under test was created with (set per case).
+var cronLoc = time.UTC
+
 // oneshot fires once at a fixed instant.
 type oneshot struct{ at time.Time }
 
@@ -74,6 +96,8 @@ func refNext(s schedSpec, t time.Time) time.Time {
 		return periodic{time.Duration(s.Period) * time.Second, time.Duration(s.Phase) * time.Second}.Next(t)
 	case "every":
 		return t.Truncate(time.Second).Add(time.Duration(s.Period) * time.Second)
+	case "localmin":
+		return localMin{s.Period}.Next(t.In(cronLoc))
 	case "spec":
 		// seconds divisible by Period (Period divides 60), on the UTC wall clock
 		n := t.Truncate(time.Second).Add(time.Second)
@@ -92,6 +116,8 @@ func mkSchedule(s schedSpec) (cron.Schedule, error) {
 		return periodic{time.Duration(s.Period) * time.Second, time.Duration(s.Phase) * time.Second}, nil
 	case "every":
 		return cron.Every(time.Duration(s.Period) * time.Second), nil
+	case "localmin":
+		return localMin{s.Period}, nil
 	case "spec":
 		return cron.NewParser(cron.Second | cron.Minute | cron.Hour | cron.Dom | cron.Month | cron.Dow).Parse(fmt.Sprintf("*/%d * * * * *", s.Period))
 	default:
@@ -108,8 +134,9 @@ type op struct {
 }
 
 type cronCase struct {
-	Racy bool // real (virtual) clock in the bubble instead of the FakeClock; API calls issued at activation instants
-	Ops  []op
+	LocOffMin int  // offset of the Cron's location from UTC in minutes (WithLocation)
+	Racy      bool // real (virtual) clock in the bubble instead of the FakeClock; API calls issued at activation instants
+	Ops       []op
 }
 
 func opStr(o op) string {
@@ -129,7 +156,7 @@ func (c cronCase) String() string {
 	for _, o := range c.Ops {
 		p = append(p, opStr(o))
 	}
-	return fmt.Sprintf("cron{racy=%v ops=[%s]}", c.Racy, strings.Join(p, " "))
+	return fmt.Sprintf("cron{racy=%v location=UTC%+dmin ops=[%s]}", c.Racy, c.LocOffMin, strings.Join(p, " "))
 }
 
 type mentry struct {
@@ -152,6 +179,7 @@ type start struct {
 }
 
 type outcome struct {
+	stopRacedWake                                                     bool
 	starts                                                            int
 	addWhileRunning, removeWhileRunning, jump, blockedAtStop, restart bool
 	racedInstant                                                      bool // an API call was issued at the very instant an activation was due
@@ -179,7 +207,11 @@ func runCron(t *testing.T, c cronCase) (out outcome, err error) {
 			off := now.Sub(epoch) % time.Second
 			time.Sleep(time.Second - off + 500*time.Millisecond)
 		}
-		cr := cron.New(cron.WithClock(clk), cron.WithLocation(time.UTC), cron.WithLogger(quietLogger{}))
+		cronLoc = time.UTC
+		if c.LocOffMin != 0 {
+			cronLoc = time.FixedZone(fmt.Sprintf("UTC%+dm", c.LocOffMin), c.LocOffMin*60)
+		}
+		cr := cron.New(cron.WithClock(clk), cron.WithLocation(cronLoc), cron.WithLogger(quietLogger{}))
 		var mu sync.Mutex
 		var got []start
 		var entries []*mentry
@@ -357,6 +389,37 @@ func runCron(t *testing.T, c cronCase) (out outcome, err error) {
 				stopCtxs = append(stopCtxs, cr.Stop())
 				running = false
 				everStopped = true
+			case "stepstop":
+				// Step the clock exactly to the next activation and call Stop at once, without settling: the
+				// scheduler's wake-up and the stop request race. Either the wake-up is handled first (the due jobs
+				// start, and the context returned by Stop must then wait for them) or Stop wins (nothing starts).
+				if !running {
+					continue
+				}
+				now := nowf()
+				var nextAct time.Time
+				for _, e := range entries {
+					if !e.removed && !e.next.IsZero() && e.next.After(now) && (nextAct.IsZero() || e.next.Before(nextAct)) {
+						nextAct = e.next
+					}
+				}
+				if nextAct.IsZero() {
+					continue
+				}
+				fake.Step(nextAct.Sub(now))
+				ctx := cr.Stop()
+				synctest.Wait()
+				mu.Lock()
+				nstarts := len(got)
+				mu.Unlock()
+				if nstarts > len(modelStarts) {
+					wake(fake.Now()) // the wake-up won
+				}
+				stopStarts = append(stopStarts, nstarts)
+				stopCtxs = append(stopCtxs, ctx)
+				running = false
+				everStopped = true
+				out.stopRacedWake = true
 			case "release":
 				if len(entries) == 0 {
 					continue
@@ -380,6 +443,8 @@ func runCron(t *testing.T, c cronCase) (out outcome, err error) {
 					d = time.Second
 				case "7s":
 					d = 7 * time.Second
+				case "10m":
+					d = 10 * time.Minute
 				default:
 					if nextAct.IsZero() || !running {
 						d = time.Second
@@ -456,12 +521,16 @@ func genSched(rt *rapid.T) schedSpec {
 	case 4, 5:
 		return schedSpec{Kind: "spec", Period: rapid.SampledFrom([]int{1, 2, 3, 4, 5, 6, 10, 15, 20, 30}).Draw(rt, "period")}
 	default:
+		if rapid.Bool().Draw(rt, "localmin") {
+			return schedSpec{Kind: "localmin", Period: rapid.SampledFrom([]int{7, 20, 45}).Draw(rt, "m")}
+		}
 		return schedSpec{Kind: "oneshot", Phase: rapid.IntRange(0, 40).Draw(rt, "at")}
 	}
 }
 
 func genCase(rt *rapid.T) cronCase {
 	var c cronCase
+	c.LocOffMin = rapid.SampledFrom([]int{0, 0, 330, -210, 345}).Draw(rt, "locOffMin")
 	n := rapid.IntRange(1, 25).Draw(rt, "nops")
 	for i := 0; i < n; i++ {
 		switch k := rapid.IntRange(0, 19).Draw(rt, "kind"); {
@@ -472,13 +541,13 @@ func genCase(rt *rapid.T) cronCase {
 		case k <= 8:
 			c.Ops = append(c.Ops, op{Kind: "start"})
 		case k == 9:
-			c.Ops = append(c.Ops, op{Kind: "stop"})
+			c.Ops = append(c.Ops, op{Kind: rapid.SampledFrom([]string{"stop", "stepstop"}).Draw(rt, "stopKind")})
 		case k == 10:
 			c.Ops = append(c.Ops, op{Kind: "release", I: rapid.IntRange(0, 5).Draw(rt, "i")})
 		case k == 11:
 			c.Ops = append(c.Ops, op{Kind: "entries"})
 		default:
-			c.Ops = append(c.Ops, op{Kind: "step", Step: rapid.SampledFrom([]string{"next", "next", "next", "next-1ns", "half", "jump2", "jump5", "1s", "7s"}).Draw(rt, "step")})
+			c.Ops = append(c.Ops, op{Kind: "step", Step: rapid.SampledFrom([]string{"next", "next", "next", "next-1ns", "half", "jump2", "jump5", "1s", "7s", "10m"}).Draw(rt, "step")})
 		}
 	}
 	return c
@@ -487,7 +556,7 @@ func genCase(rt *rapid.T) cronCase {
 func record(sec *vk.Section, c cronCase, out outcome) {
 	var cls []string
 	for name, b := range map[string]bool{"add-while-running": out.addWhileRunning, "remove-while-running": out.removeWhileRunning, "jump-over-several-activations": out.jump,
-		"blocked-job-at-stop": out.blockedAtStop, "restart": out.restart, "api-call-at-activation-instant": out.racedInstant} {
+		"blocked-job-at-stop": out.blockedAtStop, "restart": out.restart, "api-call-at-activation-instant": out.racedInstant, "stop-racing-a-wake-up": out.stopRacedWake} {
 		if b {
 			cls = append(cls, name)
 		}
